@@ -195,6 +195,7 @@ type PacketConn struct {
 	q      []queued
 	closed bool
 	rdl    time.Time
+	wdl    time.Time // write deadline: like a kernel socket, WriteTo fails once it has passed
 	timer  *time.Timer
 }
 
@@ -282,8 +283,19 @@ func (c *PacketConn) SetReadDeadline(t time.Time) error {
 	return nil
 }
 
-func (c *PacketConn) SetDeadline(t time.Time) error      { return c.SetReadDeadline(t) }
-func (c *PacketConn) SetWriteDeadline(t time.Time) error { return nil }
+func (c *PacketConn) SetDeadline(t time.Time) error {
+	c.SetWriteDeadline(t)
+	return c.SetReadDeadline(t)
+}
+
+// SetWriteDeadline: a datagram write never blocks here, but as on a real UDP
+// socket a write issued after the deadline has passed fails with a timeout.
+func (c *PacketConn) SetWriteDeadline(t time.Time) error {
+	c.net.mu.Lock()
+	c.wdl = t
+	c.net.mu.Unlock()
+	return nil
+}
 
 func (c *PacketConn) ReadFrom(p []byte) (int, net.Addr, error) {
 	n := c.net
@@ -321,6 +333,10 @@ func (c *PacketConn) WriteTo(p []byte, addr net.Addr) (int, error) {
 	if c.closed {
 		n.mu.Unlock()
 		return 0, net.ErrClosed
+	}
+	if !c.wdl.IsZero() && !time.Now().Before(c.wdl) {
+		n.mu.Unlock()
+		return 0, ErrTimeout
 	}
 	d := &Datagram{Idx: len(n.dgrams), From: c.addr, To: ua, Data: append([]byte(nil), p...), At: time.Since(n.start)}
 	n.dgrams = append(n.dgrams, d)
